@@ -28,6 +28,11 @@ fn main() {
             // child process of the C20 support runs: the library entry point
             std::process::exit(ops::c20::gen_main(&args[2..]));
         }
+        Some("deep") => {
+            // child process of the C06 / C18 deep-nesting probes: a stack overflow aborts the process, which only a
+            // parent can observe
+            std::process::exit(ops::c06::deep_main(&args[2..]));
+        }
         Some("run") => {
             let prop = args.get(2).cloned().unwrap_or_default();
             let seed: u64 = arg_val(&args, "--seed").and_then(|s| s.parse().ok()).unwrap_or(1);
